@@ -481,7 +481,7 @@ Qed.
 Lemma bstep_inv1 st op st' A : bstep st op = Ok st' -> inv1 st A ->
   inv1 st' (A ++ att_step (b_certs st) op) /\ b_certs st' = certs_step (b_certs st) op.
 Proof.
-  intros Hs I. destruct op as [u|u src d r|src r|src r|src r|c|d]; cbn [bstep] in Hs.
+  intros Hs I. destruct op as [u|u src d r|src r|src r|src r|c|d|cu|ru|d]; cbn [bstep] in Hs.
   - (* AddInput *)
     inversion Hs; subst; clear Hs. split; [|reflexivity]. cbn [att_step]. rewrite app_nil_r.
     destruct I as [H1 H2 H3 H4]. constructor; cbn; auto.
@@ -553,6 +553,12 @@ Proof.
   - (* AddOutputDatum *)
     inversion Hs; subst; clear Hs. split; [|reflexivity]. cbn [att_step]. rewrite app_nil_r.
     destruct I as [H1 H2 H3 H4]. constructor; cbn; auto.
+  - (* AddCollateral *)
+    inversion Hs; subst; clear Hs. split; [|reflexivity]. cbn [att_step]. rewrite app_nil_r. exact I.
+  - (* AddReferenceInput *)
+    inversion Hs; subst; clear Hs. split; [|reflexivity]. cbn [att_step]. rewrite app_nil_r. exact I.
+  - (* AddOutputDatumHashOnly *)
+    inversion Hs; subst; clear Hs. split; [|reflexivity]. cbn [att_step]. rewrite app_nil_r. exact I.
 Qed.
 
 Lemma run_inv1 ops : forall st st' A, run_from st ops = Ok st' -> inv1 st A ->
@@ -869,7 +875,7 @@ Qed.
 Lemma bstep_inv2 st op st' Nd : bstep st op = Ok st' -> inv2 st Nd ->
   inv2 st' (Nd ++ need_step op) /\ b_native st' = b_native st.
 Proof.
-  intros Hs I. destruct op as [u|u src d r|src r|src r|src r|c|d]; cbn [bstep] in Hs.
+  intros Hs I. destruct op as [u|u src d r|src r|src r|src r|c|d|cu|ru|d]; cbn [bstep] in Hs.
   - inversion Hs; subst; clear Hs. split; [|reflexivity]. cbn [need_step]. rewrite app_nil_r.
     destruct I as [J1 J2 J3]. constructor; auto.
   - apply asi_inv in Hs. destruct Hs as [in_rdm [est [s [isref [c [Hr [Hh [Hc [Hd ->]]]]]]]]].
@@ -908,6 +914,9 @@ Proof.
     destruct I as [J1 J2 J3]. constructor; auto.
   - inversion Hs; subst; clear Hs. split; [|reflexivity]. cbn [need_step]. rewrite app_nil_r.
     destruct I as [J1 J2 J3]. constructor; auto.
+  - inversion Hs; subst; clear Hs. split; [|reflexivity]. cbn [need_step]. rewrite app_nil_r. exact I.
+  - inversion Hs; subst; clear Hs. split; [|reflexivity]. cbn [need_step]. rewrite app_nil_r. exact I.
+  - inversion Hs; subst; clear Hs. split; [|reflexivity]. cbn [need_step]. rewrite app_nil_r. exact I.
 Qed.
 
 Lemma run_inv2 ops : forall st st' Nd, run_from st ops = Ok st' -> inv2 st Nd ->
@@ -1049,7 +1058,7 @@ Qed.
 
 Lemma bstep_inv3 st op st' Sp : bstep st op = Ok st' -> inv3 st Sp -> inv3 st' (Sp ++ sup_step op).
 Proof.
-  intros Hs I. destruct op as [u|u src d r|src r|src r|src r|c|d]; cbn [bstep] in Hs.
+  intros Hs I. destruct op as [u|u src d r|src r|src r|src r|c|d|cu|ru|d]; cbn [bstep] in Hs.
   - inversion Hs; subst; clear Hs. cbn [sup_step]. rewrite app_nil_r. now apply (inv3_same st).
   - apply asi_inv in Hs. destruct Hs as [in_rdm [est [s [isref [c [Hr [Hh [Hc [Hd ->]]]]]]]]].
     destruct d as [dd|]; cbn [sup_step]; [|rewrite app_nil_r; now apply (inv3_same st)].
@@ -1072,6 +1081,9 @@ Proof.
   - inversion Hs; subst; clear Hs. cbn [sup_step]. rewrite app_nil_r. now apply (inv3_same st).
   - inversion Hs; subst; clear Hs. cbn [sup_step]. rewrite app_nil_r.
     destruct (inv3_set st Sp d I) as [A1 [A2 [A3 A4]]]. constructor; cbn [b_datums]; auto.
+  - inversion Hs; subst; clear Hs. cbn [sup_step]. rewrite app_nil_r. exact I.
+  - inversion Hs; subst; clear Hs. cbn [sup_step]. rewrite app_nil_r. exact I.
+  - inversion Hs; subst; clear Hs. cbn [sup_step]. rewrite app_nil_r. exact I.
 Qed.
 
 Lemma run_inv3 ops : forall st st' Sp, run_from st ops = Ok st' -> inv3 st Sp -> inv3 st' (Sp ++ supplied ops).
@@ -1209,3 +1221,23 @@ Example reward_mixed_orders_differ :
     /\ nth_error (isort bytes_ltb (t_wdrl t)) 1 = Some (script_account 0 (Ex.b28 x33))
     /\ nth_error (isort acct_ltb (t_wdrl t)) 0 = Some (script_account 0 (Ex.b28 x33)).
 Proof. do 2 eexists. repeat split; vm_compute; reflexivity. Qed.
+
+(* ================= calls that do not touch the slice =================
+   builder.collaterals.append(u), builder.reference_inputs.add(u) by the caller and add_output(o, datum=d) with
+   add_datum_to_witness=False leave every table of the slice as it is: the redeemers, their pointers, the scripts and datums
+   of the witness set and (ScriptHash.v) the language views and the script integrity hash of a history are those of the
+   history without these calls — in particular a script that a collateral or a read-only reference UTxO happens to carry is
+   never a script of the transaction, and a datum registered for a spent input survives a later add_output of an equal datum *)
+Definition inert (op : bop) : bool :=
+  match op with AddCollateral _ | AddReferenceInput _ | AddOutputDatumHashOnly _ => true | _ => false end.
+
+Lemma run_from_inert ops : forall st, run_from st ops = run_from st (filter (fun o => negb (inert o)) ops).
+Proof.
+  induction ops as [|op ops IH]; intros st; [reflexivity|].
+  destruct op; cbn [inert negb filter run_from bstep bind]; try apply IH;
+    match goal with |- bind ?x _ = bind ?x _ => destruct x; cbn [bind]; [apply IH | reflexivity] end.
+Qed.
+
+Theorem inert_calls native ops a :
+  run_build native ops a = run_build native (filter (fun o => negb (inert o)) ops) a.
+Proof. unfold run_build, run. now rewrite run_from_inert. Qed.
